@@ -1819,6 +1819,9 @@ func (h *RequestHeader) setSpecialHeader(key, value []byte) bool {
 			if contentLength, err := ParseContentLength(value); err == nil {
 				h.contentLength = contentLength
 				h.contentLengthBytes = append(h.contentLengthBytes[:0], value...)
+				// as in SetContentLength: a known length replaces the 'Transfer-Encoding: chunked'
+				// left by an earlier SetContentLength(-1) / SetBodyStream(r, -1)
+				h.h = delAllArgsBytes(h.h, bytestr.StrTransferEncoding)
 			}
 			return true
 		} else if utils.CaseInsensitiveCompare(bytestr.StrConnection, key) {
